@@ -460,6 +460,18 @@ class ElemSet(set):
         self.np = set()
 
 
+class ProvSet(set):
+    """the value set of an attribute of a library object, with the ORIGIN of every value: `.stores[v]` = the attribute-store
+    statements (context key, statement) that put v there, `.other` = the values that (also) got there in any other way"""
+
+    __slots__ = ("stores", "other")
+
+    def __init__(self):
+        super().__init__()
+        self.stores = {}
+        self.other = set()
+
+
 class FieldMap(dict):
     """(object, attribute) -> points-to set, with an index of the attributes stored per object. A "version" object
     (Obj.alias_of) shares all fields with its original except the one it owns."""
@@ -485,7 +497,7 @@ class FieldMap(dict):
         return dict.__contains__(self, key)
 
     def __missing__(self, key):
-        v = ElemSet() if key[1] == "[]" else set()
+        v = ElemSet() if key[1] == "[]" else ProvSet() if (key[0].kind == "ext" and isinstance(key[1], str)) else set()
         dict.__setitem__(self, key, v)
         self.by_obj[key[0]].add(key[1])
         if isinstance(key[1], str) and key[1].startswith("k:"):
@@ -629,6 +641,7 @@ class Analysis:
         self._folded = {}
         self.folded_calls = set()
         self.dunder_insts = defaultdict(set)
+        self.store_origin = None  # (context key, statement) while the values of an attribute-store statement are recorded
         self.pre_add = False  # True while an add that certainly precedes the container's escape is recorded
         self.broken_inv = set()  # (class, field) whose constructor-established invariant is violated by some other store
         self.used_inv = set()
@@ -636,6 +649,7 @@ class Analysis:
         self._chain_ok = {}
         self.call_edges = defaultdict(set)
         self._edge_info = {}
+        self.snapshots = set()
         self.used_kill = {}
         self.narrow = []  # active narrowings: (ctx key, local name, filter)
         self.deferred = 0  # >0 while the body of a generator expression is evaluated (it runs later)
@@ -757,6 +771,18 @@ class Analysis:
         if type(s) is ElemSet and not self.pre_add and not new <= s.np:
             s.np |= new
             self.changed = True
+        elif type(s) is ProvSet:
+            og = self.store_origin
+            if og is None:
+                if not new <= s.other:
+                    s.other |= new
+                    self.changed = True
+            else:
+                for x in new:
+                    st = s.stores.setdefault(x, set())
+                    if og not in st:
+                        st.add(og)
+                        self.changed = True
 
     def wrap_py(self, o, name="?"):
         if isinstance(o, types.ModuleType):
@@ -2527,7 +2553,7 @@ class Analysis:
             if name == "deepcopyExceptFonts":
                 # a fresh designspace document whose sources are fresh descriptors that still reference the
                 # ORIGINAL font objects through `.font` (fontTools.designspaceLib; assumed)
-                return self.derived_doc(node, {o})
+                return self.derived_doc(node, {o}, node.func.value if isinstance(node.func, ast.Attribute) else None, ctx)
             if name == "copy":
                 return self.shallow_copy(node, {o})
             if name == "items":
@@ -2581,14 +2607,15 @@ class Analysis:
                 for _, s in args[:1]:
                     self.mutate_through(s, node, f".{name}(pen)")
                 return set()
+            has_rep = ("ext", o.key + ("contents",)) in self.objs
             if name in ("get", "__getitem__", "values", "keys"):
-                return self.elements({o}) | {o}
+                return self.elements({o}) | (set() if has_rep else {o})
             if name == "items":
-                return self.rows(node, [set(), self.elements({o}) | {o}], "items")
+                return self.rows(node, [set(), self.elements({o}) | (set() if has_rep else {o})], "items")
             if name in ("findDefault", "getSourceByName") or name.startswith("find"):
                 return {o}
             if name == "deepcopyExceptFonts":
-                return self.derived_doc(node, {o})
+                return self.derived_doc(node, {o}, node.func.value if isinstance(node.func, ast.Attribute) else None, ctx)
             if name == "copy":
                 return self.shallow_copy(node, {o})
             # any other method of a library object returns a new library object; if `o` is an opaque view of
@@ -2734,23 +2761,156 @@ class Analysis:
                     self.add(self.F[(e, "[]")], x.target)
         return r
 
-    def derived_doc(self, node, docs):
+    def derived_doc(self, node, docs, src_expr=None, ctx=None, shallow=False):
         """A fresh designspace-like object derived from `docs`: its own attributes/elements are fresh (itself),
-        but the attributes stored on the originals (in particular `.font`) are still reachable through it."""
+        but the attributes stored on the originals (in particular `.font`) are still reachable through it.
+        The copy is a SNAPSHOT: what analysed code stores into an attribute of the original only AFTER the copy was
+        taken is not in the copy (see stored_after)."""
         r = self.new_ext(node, set(), through=False)
         (e,) = r
         self.add(self.F[(e, "[]")], {e})
         for d in docs:
             if d.kind in ("SRC", "GS"):
                 self.add(self.F[(e, "font")], {d})
+                if shallow:
+                    # split.py builds the sub-document from NEW descriptors but hands most of their field values over
+                    # by reference (subDoc.lib = doc.lib, labelNames, mutedGlyphNames, rule.subs, vf.lib, ...)
+                    self.add(self.F[(e, "*")], {d})
             elif d.kind == "ext":
                 for a in self.F.attrs_of(d):
-                    if a != "[]":
+                    # deepcopyExceptFonts deep-copies everything but `.font`; the split functions create new source /
+                    # axis / instance descriptors (and lists of them) and share the other values
+                    if (a == "font" or (shallow and a not in ("[]", "keys", "sources", "instances", "axes"))) and isinstance(a, str):
                         vals = self.F[(d, a)]
-                        if os.environ.get("FRAMES_HACK_SNAP"):  # EXPLORATION ONLY (unsound)
-                            vals = {x for x in vals if x.kind in ("SRC", "GS")}
+                        late = self.stored_after(node, src_expr, ctx, d, a) if vals else set()
+                        if late:
+                            vals = vals - late
+                            self.snapshots.add((self.site(node), a))
                         self.add(self.F[(e, a)], vals)
         return r
+
+    # ---- a library copy is a snapshot: stores to the original that come later do not reach it --------------------------
+    def stored_after(self, node, src_expr, ctx, d, attr):
+        """the values of d.<attr> that can only have been put there by attribute stores which run AFTER the copy `node`
+        (a call in the body of function f, context ctx) is taken. Conditions: the copied object is f's parameter p (read
+        before any rebinding); every contributing store is a statement T of f itself that lies textually after the
+        top-level statement containing the copy and shares no loop with it -- so within ONE activation of f, T runs
+        after the copy; and an EARLIER activation of f cannot have stored into this activation's object, because
+        (a) f is entered from a single call statement C that passes a variable whose only reaching definition is an
+        assignment of an object freshly allocated by that assignment, in the same loop nest as C -- every activation
+        of f gets an object that did not exist before the previous activation of f (if any) had returned, and
+        (b) f is not recursive. Stores from any other function, or of unknown origin, are always included."""
+        if ctx is None or src_expr is None or not isinstance(src_expr, ast.Name) or isinstance(ctx.func.node, ast.Lambda):
+            return set()
+        f = ctx.func
+        ps = dict.get(self.F, (d, attr))
+        if type(ps) is not ProvSet or not ps.stores or not self.is_initial_read(f, src_expr):
+            return set()
+        pm = self._parents(f)
+
+        def loops_of(n):
+            out = []
+            while pm.get(n) is not None and pm[n] is not f.node:
+                n = pm[n]
+                if isinstance(n, (ast.For, ast.AsyncFor, ast.While)):
+                    out.append(n)
+                if isinstance(n, (ast.FunctionDef, ast.AsyncFunctionDef, ast.Lambda, ast.GeneratorExp, ast.ListComp, ast.SetComp, ast.DictComp)) and n is not f.node:
+                    out.append(n)  # deferred / repeated evaluation: treat like a loop
+            return out
+
+        top = node
+        while pm.get(top) is not None and pm[top] is not f.node:
+            top = pm[top]
+        if pm.get(top) is not f.node:
+            return set()
+        s_end = (top.end_lineno, top.end_col_offset)
+        s_loops = set(map(id, loops_of(node)))
+        late = set()
+        for v, origins in ps.stores.items():
+            ok = bool(origins) and v not in ps.other
+            for og in origins:
+                if not ok or og[0] != ctx.key:
+                    ok = False
+                    break
+                tnode = og[1]
+                if (tnode.lineno, tnode.col_offset) <= s_end or (set(map(id, loops_of(tnode))) & s_loops) or any(
+                        isinstance(x, (ast.FunctionDef, ast.AsyncFunctionDef, ast.Lambda)) for x in self._ancestors(pm, tnode, f.node)):
+                    ok = False
+                    break
+            if ok:
+                late.add(v)
+        if not late:
+            return set()
+        if not self.activation_fresh(ctx, src_expr.id) or self.is_recursive(ctx):
+            return set()
+        return late
+
+    @staticmethod
+    def _ancestors(pm, n, stop):
+        while pm.get(n) is not None and pm[n] is not stop:
+            n = pm[n]
+            yield n
+
+    def activation_fresh(self, ctx, pname):
+        edges = self.call_edges.get(ctx.key, set())
+        if len(edges) != 1:
+            return False
+        ((cctx_key, nid),) = edges
+        info = self._edge_info.get((ctx.key, cctx_key, nid))
+        if info is None:
+            return False
+        cctx, cnode, argmap = info
+        if cctx is None or cnode is None or isinstance(cctx.func.node, ast.Lambda):
+            return False
+        an = argmap.get(pname)
+        if not isinstance(an, ast.Name):
+            return False
+        g = cctx.func
+        r = self.reach_of(g, an)
+        if not r or len(r) != 1:
+            return False
+        (dsite,) = r
+        if not (isinstance(dsite, tuple) and len(dsite) == 2):
+            return False
+        dstmt = None
+        for n in ast.walk(g.node):
+            if isinstance(n, ast.Assign) and len(n.targets) == 1 and isinstance(n.targets[0], ast.Name) and (n.targets[0].lineno, n.targets[0].col_offset) == dsite:
+                dstmt = n
+        if dstmt is None:
+            return False
+        pm = self._parents(g)
+
+        def loop_ids(n):
+            return [id(x) for x in self._ancestors(pm, n, g.node) if isinstance(x, (ast.For, ast.AsyncFor, ast.While, ast.ListComp, ast.SetComp, ast.DictComp, ast.GeneratorExp, ast.Lambda, ast.FunctionDef))]
+
+        if loop_ids(dstmt) != loop_ids(cnode):
+            return False
+        vals = self.V.get((cctx.key, f"{an.id}@{dsite[0]}.{dsite[1]}"), set())
+        if not vals:
+            return False
+        lo, hi = (dstmt.lineno, dstmt.col_offset), (dstmt.end_lineno, dstmt.end_col_offset)
+        for o in vals:
+            # every value of that assignment is an object allocated by an expression inside the assignment itself
+            if o.kind not in ("ext", "cont") or not isinstance(o.key, tuple) or len(o.key) < 3 or o.key[0] != cctx.key:
+                return False
+            if not (lo <= (o.key[1], o.key[2]) <= hi):
+                return False
+        return True
+
+    def is_recursive(self, ctx):
+        seen = set()
+        todo = [ctx.key]
+        while todo:
+            k = todo.pop()
+            for (ck, _nid) in self.call_edges.get(k, ()):
+                if ck is None:
+                    continue
+                if ck == ctx.key:
+                    return True
+                if ck not in seen:
+                    seen.add(ck)
+                    todo.append(ck)
+        return False
 
     def new_ext(self, node, wraps, through, target=None):
         o = self.obj("ext", (self.cur.key, getattr(node, "lineno", 0), getattr(node, "col_offset", 0)), None, f"lib-object@{self.site(node)[0]}:{node.lineno}")
@@ -3051,7 +3211,7 @@ class Analysis:
         if name in ("union", "difference", "intersection", "issubset", "issuperset", "isdisjoint") and (py is None or getattr(py, "__objclass__", None) in (set, frozenset)):
             return self.new_cont(node, self.elements(A), name)
         if name in DOC_SPLITTERS:
-            r = self.derived_doc(node, A)
+            r = self.derived_doc(node, A, args[0][0] if args and args[0][0] not in (None, "*") else None, ctx, shallow=True)
             return self.rows(node, [set(), r], name)
         if name in MUTATING_FUNCS:
             deep = set(args[0][1]) if args else set()  # the first positional argument is what gets modified
@@ -3061,7 +3221,15 @@ class Analysis:
             return self.new_ext(node, set(), through=False)
         if name in FRESH_FUNCS:
             self.trusted_fresh.add(name)  # catalogue: new object; arguments neither kept, mutated nor called
-            return self.new_ext(node, set(), through=False)
+            r = self.new_ext(node, set(), through=False)
+            # what the new object CONTAINS (the values of a returned dict, the items of a returned list) are new objects as
+            # well; they get a representative of their own, so that something stored later INTO one of them (e.g.
+            # font.setGlyphOrder(names) on a TTFont taken out of the returned dict) is not mistaken for an element of the
+            # returned container itself
+            (o,) = r
+            rep = self.obj("ext", o.key + ("contents",), None, o.label + " (contents)")
+            self.add(self.F[(o, "[]")], {rep})
+            return r
         # analysed callables handed to any other library code (key=, map(f, ..), callbacks) may be invoked by it,
         # with anything reachable from the other arguments; what they return may end up in the library's result
         cb_results = self.invoke_callbacks(A, node, ctx)
@@ -3549,7 +3717,12 @@ class Analysis:
                     v2 = val
                     if o.kind == "inst":
                         v2 = self.ctor_versioned(o, target, val, ctx, node)
-                    self.add(self.F[(o, target.attr)], v2)
+                    if o.kind == "ext" and self.cur is ctx and isinstance(node, (ast.Assign, ast.AnnAssign)):
+                        self.store_origin = (ctx.key, node)
+                    try:
+                        self.add(self.F[(o, target.attr)], v2)
+                    finally:
+                        self.store_origin = None
         elif isinstance(target, ast.Subscript):
             base = self.ev(target.value, ctx)
             self.ev(target.slice, ctx) if not isinstance(target.slice, ast.Slice) else None
@@ -3865,6 +4038,7 @@ class Analysis:
         self.used_kill.clear()
         self.call_edges.clear()
         self._edge_info.clear()
+        self.snapshots.clear()
         self.changed = True
 
     def flag(self, node, reason):
